@@ -355,6 +355,8 @@ func (m *msg) childAtPath(path []int32) Entity {
 		child = m.enums[path[1]]
 	case messageTypeOneofDeclPath:
 		child = m.oneofs[path[1]]
+	case messageTypeExtensionPath:
+		child = m.defExts[path[1]]
 	default:
 		return nil
 	}
